@@ -525,3 +525,34 @@ Definition chk_paths_distinct (files : list ast) (iface : string) : list N :=
       end
   | _ => []
   end.
+
+(* ---- C18: Java classes of the methods and the captured counts against the model ---- *)
+Require Import JavaBackend.
+Definition chk_java_classes (files : list ast) (iface : string) : list N :=
+  match front Cli Debug files with
+  | Ok mir =>
+      match find (fun t => match t with MTIface i => String.eqb (mi_name i) iface | _ => false end) mir with
+      | Some (MTIface top) => map java_class (mnode_funcs (mi_nodes top))
+      | _ => []
+      end
+  | _ => []
+  end.
+
+(* captured: per method the lengths of the bi / boSizes / oi / oo arrays the proxy passed to
+   invoke; -> number of methods whose captured lengths differ from the model's counts *)
+Definition chk_java_counts (files : list ast) (iface : string) (captured : list (string * (N * N * N * N))) : list N :=
+  match front Cli Debug files with
+  | Ok mir =>
+      match find (fun t => match t with MTIface i => String.eqb (mi_name i) iface | _ => false end) mir with
+      | Some (MTIface top) =>
+          [N.of_nat (List.length (filter (fun f =>
+             match alookup (mf_name f) captured with
+             | Some c =>
+                 let secs := map skind_code (java_slots (mf_params f)) in
+                 negb (quad_eqb c (count_eq 0 secs, count_eq 1 secs, count_eq 2 secs, count_eq 3 secs))
+             | None => false end) (mnode_funcs (mi_nodes top))));
+           N.of_nat (List.length captured)]
+      | _ => [999; 0]
+      end
+  | _ => [999; 0]
+  end.
